@@ -117,6 +117,13 @@ def _line_nodes_formula(a, values):
             parts["last_node_hits_stop"] = implies(two, close(n * d, stop - start, sc))
         else:
             parts["step_equals_spacing"] = close(d, a.spacing, sc)
+    if hit_stop:
+        # C13: every node lies inside the requested [start, stop]. EXACT comparisons (no tolerance when the clause is
+        # evaluated on native floats): a node one ulp beyond the bound is outside the region for verde.inside.
+        parts["nodes_lie_within_start_and_stop"] = Forall((size,), lambda i: and_(start <= values.at(i), values.at(i) <= stop))
+        if not a.pixel_register:
+            last = values.at(size - 1)
+            parts["bounds_are_hit_exactly"] = and_(values.at(0) == start, implies(size >= 2, last == stop))
     return parts
 
 
@@ -161,6 +168,14 @@ class LineCoordinates(Contract):
                     yield (start, stop), dict(size=size, pixel_register=pixel)
         yield (0.0, 1.0), dict(size=3, spacing=0.5)
         yield (0.0, 1.0), {}
+        # arbitrary (non-round) float intervals: start + i*step arithmetic overshoots the bound by an ulp for ~1% of them
+        for _ in range(3000 if tier == "thorough" else 600):
+            start = rng.uniform(-100, 100)
+            stop = start + rng.uniform(0.1, 100)
+            if rng.random() < 0.5:
+                yield (start, stop), dict(size=rng.randint(1, 60), pixel_register=rng.random() < 0.3)
+            else:
+                yield (start, stop), dict(spacing=(stop - start) / rng.uniform(0.6, 60), adjust="spacing", pixel_register=rng.random() < 0.3)
 
     def configs(self, tier):
         out = []
@@ -318,6 +333,13 @@ class GridCoordinates(Contract):
             else:
                 sp = rng.choice([0.5, 1.0, (0.7, 1.3), [2.0], (100.0, 0.01 + rng.random())])
                 yield (region,), dict(spacing=sp, adjust=rng.choice(["spacing", "region"]), pixel_register=pixel, meshgrid=mesh, extra_coords=extra)
+        for _ in range(1500 if tier == "thorough" else 300):
+            w, s_ = rng.uniform(-100, 100), rng.uniform(-100, 100)
+            region = (w, w + rng.uniform(0.1, 100), s_, s_ + rng.uniform(0.1, 100))
+            if rng.random() < 0.5:
+                yield (region,), dict(shape=(rng.randint(1, 40), rng.randint(1, 40)), pixel_register=rng.random() < 0.3)
+            else:
+                yield (region,), dict(spacing=(region[3] - region[2]) / rng.uniform(0.6, 40), adjust="spacing", pixel_register=rng.random() < 0.3)
         yield ((0.0, 1.0, 0.0, 1.0),), dict(shape=(2, 2), spacing=0.5)
         yield ((0.0, 1.0, 0.0, 1.0),), {}
         yield ((2.0, 1.0, 0.0, 1.0),), dict(shape=(2, 2))
